@@ -1,7 +1,11 @@
 /-
   Proofs/C13/Verb — the verb phase of `http_parse` (`search_next` over `Gen.HttpSmack`):
-  simulation lemmas for `innerMatch` / `searchNext` / `httpVerbLoop` from the kernel checks of
-  `Proofs/C13/Table`.
+  simulation lemmas for `innerMatch` / `searchNext` / `httpVerbLoop`.
+
+  ROBUSTNESS: table-independent.  Everything is derived from the generic results of `Proofs/C10`
+  (`C10.http_wf` range facts, `C10.http_vclosed` closure of the regenerated annotation,
+  `C10.http_verb_language'`) and the two kernel checks of `Proofs/C13/Table`; no row number, row count
+  or match limit of the compiled table is written down.
 -/
 import Masscanned.Proofs.C13.Table
 namespace Masscanned.C13.Aux
@@ -9,239 +13,206 @@ open Masscanned Spec
 
 /-! ### extraction of the kernel-checked facts -/
 
-theorem chk_all (r : Nat) (hr : r < 61) (b : UInt8) : chk r b = true := by
-  have h := closureOk_true
-  unfold closureOk at h
-  have h1 := List.all_eq_true.1 h r (List.mem_range.2 hr)
-  have h2 := List.all_eq_true.1 h1 b.toNat (List.mem_range.2 b.toNat_lt)
-  simpa using h2
+theorem wf : C10.WF httpTbl N := C10.http_wf
 
-theorem chkRow_all (r : Nat) (hr : r < 61) : chkRow r = true :=
-  List.all_eq_true.1 rowsOk_true r (List.mem_range.2 hr)
+theorem cnt_le_one (r : Nat) (hr : r < N) : httpTbl.cnt r ≤ 1 := by
+  have := (C10.allBelow_iff _ _).mp C10.http_cnt_le_one_check r hr
+  simpa using this
 
-def live (r : Nat) : Prop := r = 0 ∨ (2 ≤ r ∧ r < 48)
-def dead (r : Nat) : Prop := r = 1 ∨ (48 ≤ r ∧ r < 61)
+theorem step_lt (r : Nat) (hr : r < N) (b : UInt8) : step r b < N :=
+  wf.mstep_lt hr (C10.u8_lt_258 b)
 
-theorem c2s_lt (b : UInt8) : Gen.HttpSmack.c2s b.toNat < 32 := by
-  have := chk_all 0 (by omega) b
-  simp only [chk, Bool.and_eq_true, decide_eq_true_eq] at this
-  exact this.1.1
+theorem step_lower (r : Nat) (b : UInt8) : step r (lowerB b) = step r b := by
+  have h := (C10.allBelow_iff _ _).mp foldOk_true b.toNat b.toNat_lt
+  simp only [UInt8.ofNat_toNat, beq_iff_eq] at h
+  unfold step C10.mstep
+  rw [h]
 
-theorem step_lower (r : Nat) (hr : r < 61) (b : UInt8) : step r (lowerB b) = step r b := by
-  have := chk_all r hr b
-  simp only [chk, Bool.and_eq_true, decide_eq_true_eq] at this
-  exact this.2
+/-- walking bytes from row `r` -/
+def walk (r : Nat) (m : Bytes) : Nat := m.foldl step r
 
-theorem step_dead (r : Nat) (hr : dead r) (b : UInt8) :
-    step r b = 1 ∨ step r b = 59 ∨ step r b = 60 := by
-  have hr' : r < 61 := by rcases hr with h | h <;> omega
-  have hc : r = 1 ∨ r ≥ 48 := by rcases hr with h | h <;> omega
-  have := chk_all r hr' b
-  simp only [chk, Bool.and_eq_true, decide_eq_true_eq, if_pos hc] at this
-  exact this.1.2
+theorem walk_lower (m : Bytes) (r : Nat) : walk r (m.map lowerB) = walk r m := by
+  induction m generalizing r with
+  | nil => rfl
+  | cons b t ih =>
+    simp only [List.map_cons, walk, List.foldl_cons, step_lower]
+    exact ih (step r b)
 
-theorem step_live (r : Nat) (hr : live r) (b : UInt8) :
-    step r b = 1 ∨ step r b = 59 ∨ step r b = 60 ∨
-      (step r b < 59 ∧ word (step r b) = word r ++ [lowerB b]) := by
-  have hr' : r < 61 := by rcases hr with h | h <;> omega
-  have hc : ¬ (r = 1 ∨ r ≥ 48) := by rcases hr with h | h <;> omega
-  have := chk_all r hr' b
-  simp only [chk, Bool.and_eq_true, decide_eq_true_eq, if_neg hc] at this
-  exact this.1.2
+theorem walk_snoc (r : Nat) (m : Bytes) (b : UInt8) : walk r (m ++ [b]) = step (walk r m) b := by
+  simp [walk]
 
-theorem cnt_low (r : Nat) (hr : r < 48) : Gen.HttpSmack.cnt r = 0 := by
-  have := chkRow_all r (by omega)
-  simpa [chkRow, hr] using this
+/-- no method name can be completed any more: a row whose annotation is empty, or a match row that
+    does not carry the Verb id -/
+def dead (r : Nat) : Prop :=
+  r < N ∧ ((r < httpTbl.matchLimit ∧ AR r = []) ∨ (httpTbl.matchLimit ≤ r ∧ ∀ id ∈ httpTbl.ids r, id ≠ 0))
 
-theorem row_high (r : Nat) (h48 : 48 ≤ r) (hr : r < 61) :
-    Gen.HttpSmack.cnt r = 1 ∧ Gen.HttpSmack.ids r = [idOf r] ∧ idOf r < 5 ∧
-      (idOf r = 0 → r ≠ 59 ∧ r ≠ 60 ∧ word r ∈ lowerM) := by
-  have := chkRow_all r hr
-  have hn : ¬ r < 48 := by omega
-  simp only [chkRow, hn, if_false, Bool.and_eq_true, decide_eq_true_eq] at this
-  refine ⟨this.1.1.1, this.1.1.2, this.1.2, ?_⟩
-  intro h0
-  have h2 := this.2
-  simp only [h0, if_true, Bool.and_eq_true, decide_eq_true_eq] at h2
-  exact ⟨h2.1.1, h2.1.2, h2.2⟩
+theorem dead_of_B (r : Nat) (hr : r < N) (h : deadRowB r = true) : dead r := by
+  refine ⟨hr, ?_⟩
+  unfold deadRowB at h
+  by_cases hl : r < httpTbl.matchLimit
+  · rw [if_pos hl] at h
+    simp only [beq_iff_eq] at h
+    refine .inl ⟨hl, ?_⟩
+    have : (C10.annOf C10.annH r).2 = [] := by
+      simp only [C10.annOf, h]; rfl
+    simp only [AR, C10.decodeR, this, List.filterMap_nil]
+  · rw [if_neg hl] at h
+    refine .inr ⟨by omega, ?_⟩
+    intro id hid
+    have := List.all_eq_true.1 h id hid
+    simpa using this
+
+theorem dead_step (r : Nat) (hd : dead r) (b : UInt8) : dead (step r b) := by
+  obtain ⟨hr, hc⟩ := hd
+  have hlt := step_lt r hr b
+  rcases hc with ⟨hl, ha⟩ | ⟨hge, hids⟩
+  · obtain ⟨_, _, hnone⟩ := C10.http_vclosed.step r hl b
+    have ha' : C10.decodeR C10.verbsL (C10.annOf C10.annH r) = [] := ha
+    simp only [ha'] at hnone
+    have h0 : C10.rout (C10.rstep [] (C10.lowerB b)) = none := rfl
+    obtain ⟨h1, h2⟩ := hnone h0
+    refine ⟨hlt, ?_⟩
+    by_cases hm : step r b < httpTbl.matchLimit
+    · exact .inl ⟨hm, h1 hm⟩
+    · exact .inr ⟨by omega, (h2 (by unfold step at hm; omega)).2⟩
+  · have hj : r - httpTbl.matchLimit < N - httpTbl.matchLimit := by omega
+    have h := (C10.allBelow_iff _ _).mp deadOk_true _ hj
+    rw [show httpTbl.matchLimit + (r - httpTbl.matchLimit) = r by omega] at h
+    unfold deadStepB at h
+    have hall : (httpTbl.ids r).all (· != 0) = true := by
+      rw [List.all_eq_true]
+      intro id hid
+      simpa using hids id hid
+    simp only [hall, Bool.not_true, Bool.false_or] at h
+    exact dead_of_B _ hlt ((C10.allBelow_iff _ _).mp h b.toNat b.toNat_lt)
+
+theorem dead_walk (m : Bytes) (r : Nat) (hd : dead r) : dead (walk r m) := by
+  induction m generalizing r with
+  | nil => exact hd
+  | cons b t ih => exact ih _ (dead_step r hd b)
 
 /-! ### `innerMatch` -/
 
 theorem innerMatch_nil (r idx : Nat) : httpTbl.innerMatch r [] idx = .ok (idx, r) := by
   rw [SmackTbl.innerMatch]
 
-theorem innerMatch_cons (r : Nat) (hr : r < 61) (b : UInt8) (t : Bytes) (idx : Nat) :
+theorem innerMatch_cons (r : Nat) (hr : r < N) (b : UInt8) (t : Bytes) (idx : Nat) :
     httpTbl.innerMatch r (b :: t) idx =
-      if 48 ≤ step r b then .ok (idx, step r b) else httpTbl.innerMatch (step r b) t (idx + 1) := by
-  rw [SmackTbl.innerMatch]
-  have hk : r * 2 ^ httpTbl.rowShift + httpTbl.c2s b.toNat < httpTbl.transLen := by
-    show r * 2 ^ 5 + Gen.HttpSmack.c2s b.toNat < 61 * 2 ^ 5
-    have := c2s_lt b
-    omega
-  simp only [hk, if_true]
-  rfl
+      if httpTbl.matchLimit ≤ step r b then .ok (idx, step r b)
+      else httpTbl.innerMatch (step r b) t (idx + 1) :=
+  C10.innerMatch_cons httpTbl r b t idx (wf.idx_lt hr (C10.u8_lt_258 b))
 
-/-- outcome of `innerMatch` started in the unanchored row 1 -/
-def DeadRes (d : Bytes) (idx ii row : Nat) : Prop :=
-  (row = 1 ∧ ii = idx + d.length) ∨ ((row = 59 ∨ row = 60) ∧ idx ≤ ii ∧ ii < idx + d.length)
-
-theorem innerMatch_one (d : Bytes) (idx : Nat) :
-    ∃ ii row, httpTbl.innerMatch 1 d idx = .ok (ii, row) ∧ DeadRes d idx ii row := by
-  induction d generalizing idx with
-  | nil => exact ⟨idx, 1, innerMatch_nil 1 idx, Or.inl ⟨rfl, by simp⟩⟩
-  | cons b t ih =>
-    rw [innerMatch_cons 1 (by omega)]
-    rcases step_dead 1 (Or.inl rfl) b with h | h | h
-    · rw [h]
-      obtain ⟨ii, row, h1, h2⟩ := ih (idx + 1)
-      refine ⟨ii, row, by simpa using h1, ?_⟩
-      rcases h2 with ⟨h3, h4⟩ | ⟨h3, h4, h5⟩
-      · exact Or.inl ⟨h3, by simp only [List.length_cons]; omega⟩
-      · exact Or.inr ⟨h3, by omega, by simp only [List.length_cons]; omega⟩
-    · rw [h]; exact ⟨idx, 59, by simp, Or.inr ⟨Or.inl rfl, by omega, by simp⟩⟩
-    · rw [h]; exact ⟨idx, 60, by simp, Or.inr ⟨Or.inr rfl, by omega, by simp⟩⟩
-
-theorem innerMatch_dead (r : Nat) (hr : dead r) (b : UInt8) (t : Bytes) (idx : Nat) :
-    ∃ ii row, httpTbl.innerMatch r (b :: t) idx = .ok (ii, row) ∧ DeadRes (b :: t) idx ii row := by
-  have hr' : r < 61 := by rcases hr with h | h <;> omega
-  rw [innerMatch_cons r hr']
-  rcases step_dead r hr b with h | h | h
-  · rw [h]
-    obtain ⟨ii, row, h1, h2⟩ := innerMatch_one t (idx + 1)
-    refine ⟨ii, row, by simpa using h1, ?_⟩
-    rcases h2 with ⟨h3, h4⟩ | ⟨h3, h4, h5⟩
-    · exact Or.inl ⟨h3, by simp only [List.length_cons]; omega⟩
-    · exact Or.inr ⟨h3, by omega, by simp only [List.length_cons]; omega⟩
-  · rw [h]; exact ⟨idx, 59, by simp, Or.inr ⟨Or.inl rfl, by omega, by simp⟩⟩
-  · rw [h]; exact ⟨idx, 60, by simp, Or.inr ⟨Or.inr rfl, by omega, by simp⟩⟩
-
-/-- outcome of `innerMatch` started in a live (trie) row `r` -/
-def LiveRes (r : Nat) (d : Bytes) (idx ii row : Nat) : Prop :=
-  (row < 48 ∧ ii = idx + d.length) ∨
-  (48 ≤ row ∧ row < 61 ∧ idx ≤ ii ∧ ii < idx + d.length ∧
-    (row = 59 ∨ row = 60 ∨ word row = word r ++ (d.take (ii + 1 - idx)).map lowerB))
-
-theorem innerMatch_live (d : Bytes) (r : Nat) (hr : live r) (idx : Nat) :
-    ∃ ii row, httpTbl.innerMatch r d idx = .ok (ii, row) ∧ LiveRes r d idx ii row := by
-  induction d generalizing r idx with
+/-- `innerMatch` from any row of the table: it stops in the first match row entered (reached along the
+    consumed bytes), or consumes everything and ends in the row reached along the input -/
+theorem innerMatch_char (d : Bytes) : ∀ (r idx : Nat), r < N →
+    ∃ i r', httpTbl.innerMatch r d idx = .ok (i, r') ∧ r' < N ∧
+      ((httpTbl.matchLimit ≤ r' ∧ idx ≤ i ∧ i < idx + d.length ∧ r' = walk r (d.take (i + 1 - idx))) ∨
+       (i = idx + d.length ∧ r' = walk r d ∧ (d ≠ [] → r' < httpTbl.matchLimit))) := by
+  induction d with
   | nil =>
-    refine ⟨idx, r, innerMatch_nil r idx, Or.inl ⟨?_, by simp⟩⟩
-    rcases hr with h | h <;> omega
+    intro r idx hr
+    exact ⟨idx, r, innerMatch_nil r idx, hr, .inr ⟨by simp, rfl, fun h => absurd rfl h⟩⟩
   | cons b t ih =>
-    have hr' : r < 61 := by rcases hr with h | h <;> omega
-    rw [innerMatch_cons r hr']
-    rcases step_live r hr b with h | h | h | ⟨h, hw⟩
-    · rw [h]
-      obtain ⟨ii, row, h1, h2⟩ := innerMatch_one t (idx + 1)
-      refine ⟨ii, row, by simpa using h1, ?_⟩
-      rcases h2 with ⟨h3, h4⟩ | ⟨h3, h4, h5⟩
-      · exact Or.inl ⟨by omega, by simp only [List.length_cons]; omega⟩
-      · refine Or.inr ⟨by omega, by omega, by omega, by simp only [List.length_cons]; omega, ?_⟩
-        rcases h3 with h3 | h3
-        · exact Or.inl h3
-        · exact Or.inr (Or.inl h3)
-    · rw [h]
-      exact ⟨idx, 59, by simp, Or.inr ⟨by omega, by omega, by omega, by simp, Or.inl rfl⟩⟩
-    · rw [h]
-      exact ⟨idx, 60, by simp, Or.inr ⟨by omega, by omega, by omega, by simp, Or.inr (Or.inl rfl)⟩⟩
-    · by_cases h48 : 48 ≤ step r b
-      · refine ⟨idx, step r b, by simp [h48], Or.inr ⟨h48, by omega, by omega, by simp, ?_⟩⟩
-        right; right
-        have : idx + 1 - idx = 1 := by omega
-        rw [hw, this]; simp
-      · rw [if_neg h48]
-        by_cases h1 : step r b = 1
-        · rw [h1]
-          obtain ⟨ii, row, h1, h2⟩ := innerMatch_one t (idx + 1)
-          refine ⟨ii, row, h1, ?_⟩
-          rcases h2 with ⟨h3, h4⟩ | ⟨h3, h4, h5⟩
-          · exact Or.inl ⟨by omega, by simp only [List.length_cons]; omega⟩
-          · refine Or.inr ⟨by omega, by omega, by omega, by simp only [List.length_cons]; omega, ?_⟩
-            rcases h3 with h3 | h3
-            · exact Or.inl h3
-            · exact Or.inr (Or.inl h3)
-        · have hl : live (step r b) := by
-            unfold live; omega
-          obtain ⟨ii, row, h1, h2⟩ := ih (step r b) hl (idx + 1)
-          refine ⟨ii, row, h1, ?_⟩
-          rcases h2 with ⟨h3, h4⟩ | ⟨h3, h3', h4, h5, h6⟩
-          · exact Or.inl ⟨h3, by simp only [List.length_cons]; omega⟩
-          · refine Or.inr ⟨h3, h3', by omega, by simp only [List.length_cons]; omega, ?_⟩
-            rcases h6 with h6 | h6 | h6
-            · exact Or.inl h6
-            · exact Or.inr (Or.inl h6)
-            · right; right
-              have e : ii + 1 - idx = (ii + 1 - (idx + 1)) + 1 := by omega
-              rw [h6, hw, e]
-              simp
+    intro r idx hr
+    rw [innerMatch_cons r hr]
+    have hlt := step_lt r hr b
+    by_cases hm : httpTbl.matchLimit ≤ step r b
+    · rw [if_pos hm]
+      refine ⟨idx, step r b, rfl, hlt, .inl ⟨hm, Nat.le_refl _, by simp, ?_⟩⟩
+      have : idx + 1 - idx = 1 := by omega
+      rw [this]; simp [walk]
+    · rw [if_neg hm]
+      obtain ⟨i, r', h1, h2, h3⟩ := ih (step r b) (idx + 1) hlt
+      refine ⟨i, r', h1, h2, ?_⟩
+      rcases h3 with ⟨a1, a2, a3, a4⟩ | ⟨a1, a2, a3⟩
+      · refine .inl ⟨a1, by omega, by simp only [List.length_cons]; omega, ?_⟩
+        have e : i + 1 - idx = (i + 1 - (idx + 1)) + 1 := by omega
+        rw [a4, e, List.take_succ_cons]
+        rfl
+      · refine .inr ⟨by simp only [List.length_cons]; omega, by rw [a2]; rfl, ?_⟩
+        intro _
+        cases t with
+        | nil => rw [a2]; simp only [walk, List.foldl_nil]; omega
+        | cons c t' => exact a3 (by simp)
 
 /-! ### `searchNext` -/
 
-theorem searchNext_of_inner (st : Nat) (hst : st < 61) (d : Bytes) (ii row : Nat)
-    (h : httpTbl.innerMatch st d 0 = .ok (ii, row)) (hrow : row < 61) :
-    httpTbl.searchNext st d =
-      if row < 48 then .ok (noMatch, row, ii) else .ok (idOf row, row, ii + 1) := by
+/-- `search_next` from a stored plain row, in terms of `inner_match` -/
+theorem searchNext_of_inner (st : Nat) (hst : st < N) (d : Bytes) (ii row : Nat)
+    (h : httpTbl.innerMatch st d 0 = .ok (ii, row)) (hrow : row < N) :
+    (row < httpTbl.matchLimit ∧ httpTbl.searchNext st d = .ok (noMatch, row, ii)) ∨
+    (httpTbl.matchLimit ≤ row ∧ ∃ id, httpTbl.ids row = [id] ∧ id ≠ noMatch ∧
+      httpTbl.searchNext st d = .ok (id, row, ii + 1)) := by
+  have hN := wf.N_lt
   have hm : st % 16777216 = st := Nat.mod_eq_of_lt (by omega)
   have hd : st / 16777216 = 0 := Nat.div_eq_of_lt (by omega)
-  have hlen : row < httpTbl.matchLen := by show row < 84; omega
+  have hlen : row < httpTbl.matchLen := Nat.lt_of_lt_of_le hrow wf.N_le
+  have hiff := wf.match_iff row hrow
   unfold SmackTbl.searchNext
   simp only [hm, hd, h, if_true, hlen]
-  by_cases h48 : row < 48
-  · have hc : httpTbl.cnt row = 0 := cnt_low row h48
-    simp [hc, h48]
-  · obtain ⟨hc, hids, _, _⟩ := row_high row (by omega) hrow
-    have hc' : httpTbl.cnt row = 1 := hc
-    have hids' : httpTbl.ids row = [idOf row] := hids
-    simp [hc', hids', h48, hlen]
+  by_cases hc : httpTbl.cnt row = 0
+  · left
+    refine ⟨by omega, ?_⟩
+    simp [hc]
+  · right
+    have h1 : httpTbl.cnt row = 1 := by have := cnt_le_one row hrow; omega
+    have hl : (httpTbl.ids row).length = 1 := by rw [wf.ids_len row hrow, h1]
+    obtain ⟨id, hid⟩ : ∃ id, httpTbl.ids row = [id] := by
+      match hx : httpTbl.ids row, hl with
+      | [id], _ => exact ⟨id, rfl⟩
+    refine ⟨by omega, id, hid, wf.ids_ne row hrow id (by rw [hid]; simp), ?_⟩
+    simp [h1, hid, hlen]
 
-theorem idOf_ne_noMatch (r : Nat) (h : idOf r < 5) : idOf r ≠ noMatch := by
-  unfold noMatch; omega
-
-/-- `search_next` from a dead state on a non-empty input: either no match (all consumed, state 1) or a
-    match with an id other than Verb and a dead new state -/
+/-- `search_next` from a dead state on a non-empty input: either no match (all consumed) or a
+    match with an id other than Verb; the new state is dead again -/
 theorem searchNext_dead (st : Nat) (hst : dead st) (b : UInt8) (t : Bytes) :
     ∃ id st' n, httpTbl.searchNext st (b :: t) = .ok (id, st', n) ∧ 1 ≤ n ∧ n ≤ (b :: t).length ∧
-      ((id = noMatch ∧ st' = 1 ∧ n = (b :: t).length) ∨ (id ≠ 0 ∧ id ≠ noMatch ∧ dead st')) := by
-  have hst' : st < 61 := by rcases hst with h | h <;> omega
-  obtain ⟨ii, row, h1, h2⟩ := innerMatch_dead st hst b t 0
-  rcases h2 with ⟨h3, h4⟩ | ⟨h3, h4, h5⟩
-  · subst h3
-    rw [searchNext_of_inner st hst' _ ii 1 h1 (by omega)]
-    refine ⟨noMatch, 1, ii, by simp, ?_, by omega, Or.inl ⟨rfl, rfl, by omega⟩⟩
-    simp only [List.length_cons] at h4; omega
-  · have hrow : 48 ≤ row ∧ row < 61 := by rcases h3 with h | h <;> omega
-    rw [searchNext_of_inner st hst' _ ii row h1 hrow.2]
-    obtain ⟨_, _, hid, h0⟩ := row_high row hrow.1 hrow.2
-    refine ⟨idOf row, row, ii + 1, by simp; omega, by omega, by omega, Or.inr ⟨?_, idOf_ne_noMatch _ hid, Or.inr hrow⟩⟩
-    intro e
-    have := h0 e
-    rcases h3 with h | h <;> omega
+      id ≠ 0 ∧ dead st' ∧ (id = noMatch → n = (b :: t).length) := by
+  have hst' : st < N := hst.1
+  obtain ⟨i, r', h1, h2, h3⟩ := innerMatch_char (b :: t) st 0 hst'
+  have hdead : dead r' := by
+    rcases h3 with ⟨_, _, _, a4⟩ | ⟨_, a2, _⟩
+    · rw [a4]; exact dead_walk _ _ hst
+    · rw [a2]; exact dead_walk _ _ hst
+  rcases searchNext_of_inner st hst' _ i r' h1 h2 with ⟨hl, hs⟩ | ⟨hge, id, hid, hne, hs⟩
+  · rcases h3 with ⟨a1, _⟩ | ⟨a1, _, _⟩
+    · omega
+    · refine ⟨noMatch, r', i, hs, ?_, by omega, by unfold noMatch; omega, hdead, fun _ => by omega⟩
+      simp only [List.length_cons] at a1; omega
+  · rcases h3 with ⟨_, _, a3, _⟩ | ⟨_, _, a3⟩
+    · refine ⟨id, r', i + 1, hs, by omega, by omega, ?_, hdead, fun e => absurd e hne⟩
+      rcases hdead.2 with ⟨hl, _⟩ | ⟨_, hids⟩
+      · omega
+      · exact hids id (by rw [hid]; simp)
+    · have := a3 (by simp); omega
 
 /-- `search_next` from the start state on a non-empty input -/
 theorem searchNext_start (d : Bytes) (hd : d ≠ []) :
     ∃ id st' n, httpTbl.searchNext 0 d = .ok (id, st', n) ∧ 1 ≤ n ∧ n ≤ d.length ∧
-      ((id = noMatch ∧ n = d.length ∧ st' < 48) ∨ (id ≠ 0 ∧ id ≠ noMatch ∧ dead st') ∨
+      ((id = noMatch ∧ n = d.length ∧ st' < httpTbl.matchLimit) ∨ (id ≠ 0 ∧ id ≠ noMatch ∧ dead st') ∨
        (id = 0 ∧ (d.take n).map lowerB ∈ lowerM)) := by
-  obtain ⟨ii, row, h1, h2⟩ := innerMatch_live d 0 (Or.inl rfl) 0
+  have h0 : (0 : Nat) < N := C10.http_base_lt.2.1
   have hpos : 0 < d.length := List.length_pos_iff.2 hd
-  rcases h2 with ⟨h3, h4⟩ | ⟨h3, h3', h4, h5, h6⟩
-  · rw [searchNext_of_inner 0 (by omega) _ ii row h1 (by omega)]
-    refine ⟨noMatch, row, ii, by simp [h3], by omega, by omega, Or.inl ⟨rfl, by omega, h3⟩⟩
-  · rw [searchNext_of_inner 0 (by omega) _ ii row h1 h3']
-    obtain ⟨_, _, hid, h0⟩ := row_high row h3 h3'
-    refine ⟨idOf row, row, ii + 1, by simp; omega, by omega, by omega, ?_⟩
-    by_cases e : idOf row = 0
-    · right; right
-      obtain ⟨n59, n60, hw⟩ := h0 e
-      refine ⟨e, ?_⟩
-      rcases h6 with h6 | h6 | h6
-      · exact absurd h6 n59
-      · exact absurd h6 n60
-      · have hw0 : word 0 = [] := rfl
-        rw [h6, hw0] at hw
-        simpa using hw
-    · right; left
-      exact ⟨e, idOf_ne_noMatch _ hid, Or.inr ⟨h3, h3'⟩⟩
+  obtain ⟨i, r', h1, h2, h3⟩ := innerMatch_char d 0 0 h0
+  rcases searchNext_of_inner 0 h0 _ i r' h1 h2 with ⟨hl, hs⟩ | ⟨hge, id, hid, hne, hs⟩
+  · rcases h3 with ⟨a1, _⟩ | ⟨a1, _, _⟩
+    · omega
+    · exact ⟨noMatch, r', i, hs, by omega, by omega, .inl ⟨rfl, by omega, hl⟩⟩
+  · rcases h3 with ⟨_, _, a3, _⟩ | ⟨_, _, a3⟩
+    · refine ⟨id, r', i + 1, hs, by omega, by omega, ?_⟩
+      by_cases e : id = 0
+      · right; right
+        subst e
+        have := (C10.http_verb_language' d (i + 1)).mp ⟨r', hs⟩
+        rw [lowerM_eq, lowerB_eq]
+        exact ⟨rfl, this.2⟩
+      · right; left
+        refine ⟨e, hne, h2, .inr ⟨hge, ?_⟩⟩
+        intro id' hid'
+        rw [hid] at hid'
+        simp only [List.mem_cons, List.not_mem_nil, or_false] at hid'
+        rw [hid']; exact e
+    · have := a3 hd; omega
 
 /-! ### the verb loop -/
 
@@ -259,21 +230,26 @@ theorem verbLoop_dead (fuel : Nat) (ps : HttpSt) (d : Bytes) (pos : Nat)
     cases d with
     | nil => exact ⟨ps, verbLoop_nil fuel ps pos, Or.inl rfl⟩
     | cons b t =>
-      obtain ⟨id, st', n, hs, hn1, hn2, hcase⟩ := searchNext_dead ps.smackState hdead b t
+      obtain ⟨id, st', n, hs, hn1, hn2, hid0, hdead', hnm⟩ := searchNext_dead ps.smackState hdead b t
       rw [httpVerbLoop]
       have hne : (b :: t) ≠ [] := by simp
       simp only [hne, if_false, hs]
       have h1 : ¬ n > (b :: t).length := by omega
       have h2 : ¬ pos + n = 0 := by omega
-      simp only [h1, h2, if_false]
-      rcases hcase with ⟨e1, e2, _⟩ | ⟨e1, e2, e3⟩
-      · subst e1; subst e2
-        have : noMatch ≠ 0 := by unfold noMatch; omega
-        simp [this, unanchoredState]
-      · simp only [e1, e2, if_false]
-        have hl : ((b :: t).drop n).length < fuel := by
-          rw [List.length_drop]; simp only [List.length_cons] at hf hn2 ⊢; omega
-        obtain ⟨ps', hp, hst⟩ := ih { ps with smackState := st', smackId := id } ((b :: t).drop n) (pos + n) e3 hl
+      simp only [h1, h2, if_false, hid0]
+      have hl : ((b :: t).drop n).length < fuel := by
+        rw [List.length_drop]; simp only [List.length_cons] at hf hn2 ⊢; omega
+      obtain ⟨ps', hp, hst⟩ := ih { ps with smackState := st', smackId := id } ((b :: t).drop n) (pos + n)
+        hdead' hl
+      by_cases e1 : id = noMatch
+      · simp only [e1, if_true]
+        by_cases e2 : st' = unanchoredState
+        · simp only [e2, if_true]
+          exact ⟨_, rfl, Or.inr rfl⟩
+        · simp only [e2, if_false]
+          rw [e1] at hp
+          exact ⟨ps', hp, hst⟩
+      · simp only [e1, if_false]
         exact ⟨ps', hp, hst⟩
 
 /-- **Soundness of the verb phase**: from the initial state, `http_parse` on a non-empty input never
@@ -319,92 +295,44 @@ theorem parse_start (p : Bytes) (hp : p ≠ []) :
     simp only [if_true]
     refine ⟨_, rfl, Or.inl ⟨p.take n, p.drop n, (List.take_append_drop n p).symm, e2, rfl, rfl⟩⟩
 
-/-! ### completeness: the table evaluated along each method -/
+/-! ### completeness -/
 
-/-- walking `m` from row `r` enters a match row exactly at the last byte of `m`, namely `row` -/
-def runsTo : Nat → Bytes → Nat → Bool
-  | _, [], _ => false
-  | r, [b], row => decide (r < 61) && decide (step r b = row) && decide (48 ≤ row)
-  | r, b :: c :: t, row => decide (r < 61) && decide (step r b < 48) && runsTo (step r b) (c :: t) row
-
-def walk (r : Nat) (m : Bytes) : Nat := m.foldl step r
-
-theorem innerMatch_runsTo (m : Bytes) (r row : Nat) (rest : Bytes) (idx : Nat)
-    (h : runsTo r m row = true) :
-    httpTbl.innerMatch r (m ++ rest) idx = .ok (idx + m.length - 1, row) := by
-  induction m generalizing r idx with
-  | nil => simp [runsTo] at h
-  | cons b t ih =>
-    cases t with
-    | nil =>
-      simp only [runsTo, Bool.and_eq_true, decide_eq_true_eq] at h
-      obtain ⟨⟨h1, h2⟩, h3⟩ := h
-      show httpTbl.innerMatch r (b :: rest) idx = _
-      rw [innerMatch_cons r h1, h2]
-      simp [h3]
-    | cons c t =>
-      simp only [runsTo, Bool.and_eq_true, decide_eq_true_eq] at h
-      obtain ⟨⟨h1, h2⟩, h3⟩ := h
-      show httpTbl.innerMatch r (b :: ((c :: t) ++ rest)) idx = _
-      rw [innerMatch_cons r h1]
-      have : ¬ 48 ≤ step r b := by omega
-      rw [if_neg this, ih (step r b) (idx + 1) h3]
-      simp only [List.length_cons]
-      congr 2
-      omega
-
-theorem runsTo_lower (m : Bytes) (r row : Nat) :
-    runsTo r (m.map lowerB) row = runsTo r m row := by
-  induction m generalizing r with
-  | nil => rfl
-  | cons b t ih =>
-    cases t with
-    | nil =>
-      simp only [List.map, runsTo]
-      by_cases hr : r < 61
-      · rw [step_lower r hr]
-      · simp [hr]
-    | cons c t =>
-      simp only [List.map, runsTo]
-      by_cases hr : r < 61
-      · rw [step_lower r hr]
-        have := ih (step r b)
-        simp only [List.map] at this
-        rw [this]
-      · simp [hr]
-
-theorem walk_lower (m : Bytes) (r row : Nat) (h : runsTo r m row = true) : walk r m = row := by
-  induction m generalizing r with
-  | nil => simp [runsTo] at h
-  | cons b t ih =>
-    cases t with
-    | nil =>
-      simp only [runsTo, Bool.and_eq_true, decide_eq_true_eq] at h
-      simp [walk, h.1.2]
-    | cons c t =>
-      simp only [runsTo, Bool.and_eq_true, decide_eq_true_eq] at h
-      have := ih (step r b) h.2
-      simpa [walk] using this
-
-theorem runsTo_ge (m : Bytes) (r row : Nat) (h : runsTo r m row = true) : 48 ≤ row := by
-  induction m generalizing r with
-  | nil => simp [runsTo] at h
-  | cons b t ih =>
-    cases t with
-    | nil =>
-      simp only [runsTo, Bool.and_eq_true, decide_eq_true_eq] at h
-      exact h.2
-    | cons c t =>
-      simp only [runsTo, Bool.and_eq_true, decide_eq_true_eq] at h
-      exact ih (step r b) h.2
-
-/-- the match row of each (lower-case) method -/
+/-- the match row of each (lower-case) method: the row reached from the start row along its bytes -/
 def methodRow (w : Bytes) : Nat := walk 0 w
 
-theorem methods_run :
-    (lowerM.all fun w => runsTo 0 w (methodRow w) && decide (methodRow w < 61) &&
-      decide (idOf (methodRow w) = 0)) = true := by
-  decide +kernel
+/-- a method name (in any letter case) at the start of the input is consumed exactly, the Verb id is
+    reported, and the matcher is left in the method's match row -/
+theorem searchNext_method (m rest : Bytes) (hm : m.map lowerB ∈ lowerM) :
+    httpTbl.searchNext baseState (m ++ rest) = .ok (0, methodRow (m.map lowerB), m.length) := by
+  have h0 : (0 : Nat) < N := C10.http_base_lt.2.1
+  have hv : ∃ st, httpTbl.searchNext baseState (m ++ rest) = .ok (0, st, m.length) := by
+    rw [C10.http_verb_language' (m ++ rest) m.length]
+    refine ⟨by simp, ?_⟩
+    rw [List.take_left', ← lowerB_eq, ← lowerM_eq]
+    · exact hm
+    · rfl
+  obtain ⟨st, hst⟩ := hv
+  obtain ⟨i, r', h1, h2, h3⟩ := innerMatch_char (m ++ rest) 0 0 h0
+  have hst' : httpTbl.searchNext 0 (m ++ rest) = .ok (0, st, m.length) := hst
+  rcases searchNext_of_inner 0 h0 _ i r' h1 h2 with ⟨hl, hs⟩ | ⟨hge, id, hid, hne, hs⟩
+  · rw [hs] at hst'
+    simp only [Except.ok.injEq, Prod.mk.injEq] at hst'
+    exact absurd hst'.1 (by unfold noMatch; omega)
+  · rw [hs] at hst'
+    simp only [Except.ok.injEq, Prod.mk.injEq] at hst'
+    obtain ⟨rfl, rfl, hi⟩ := hst'
+    rw [hst]
+    rcases h3 with ⟨_, _, _, a4⟩ | ⟨a1, _, a3⟩
+    · have e : i + 1 - 0 = m.length := by omega
+      rw [e, List.take_left' rfl] at a4
+      rw [a4, methodRow, walk_lower]
+    · have : m ++ rest ≠ [] := by
+        intro e
+        have hl : (m ++ rest).length = 0 := by rw [e]; rfl
+        rw [List.length_append] at hl
+        omega
+      have hlt := a3 this
+      exact absurd hge (Nat.not_le_of_lt hlt)
 
 /-- **Completeness of the verb phase**: a request that begins with one of the nine methods (in any
     letter case) makes the matcher report the verb after exactly the method's bytes; the rest is run
@@ -412,24 +340,14 @@ theorem methods_run :
 theorem parse_method (m rest : Bytes) (hm : m.map lowerB ∈ lowerM) :
     httpParse {} (m ++ rest) =
       .ok { state := httpFold .space rest, smackState := methodRow (m.map lowerB), smackId := 0 } := by
-  have h := List.all_eq_true.1 methods_run _ hm
-  simp only [Bool.and_eq_true, decide_eq_true_eq] at h
-  obtain ⟨⟨hrun, hlt⟩, hid⟩ := h
-  rw [runsTo_lower] at hrun
+  have hs := searchNext_method m rest hm
   generalize methodRow (m.map lowerB) = row at *
   have hmne : m ≠ [] := by
-    intro e; subst e; simp [runsTo] at hrun
+    intro e; subst e
+    have : ([] : Bytes) ∈ lowerM := hm
+    revert this; decide +kernel
   have hp : m ++ rest ≠ [] := by simp [hmne]
   have hmpos : 0 < m.length := List.length_pos_iff.2 hmne
-  have hin := innerMatch_runsTo m 0 row rest 0 hrun
-  have h48 : 48 ≤ row := runsTo_ge m 0 row hrun
-  have hs : httpTbl.searchNext baseState (m ++ rest) = .ok (0, row, m.length) := by
-    show httpTbl.searchNext 0 (m ++ rest) = _
-    rw [searchNext_of_inner 0 (by omega) _ _ row hin hlt]
-    have : ¬ row < 48 := by omega
-    rw [if_neg this, hid]
-    congr 3
-    omega
   have hfuel : 2 * (m ++ rest).length + 300 = (2 * (m ++ rest).length + 299) + 1 := by omega
   have hst0 : ({} : HttpSt).state = .start := rfl
   unfold httpParse
